@@ -55,6 +55,46 @@ func paths(v any, cur []any, out *[][]any) {
 	}
 }
 
+// getAt returns the node at path (nil when the path does not exist).
+func getAt(root any, path []any) any {
+	for _, st := range path {
+		switch x := root.(type) {
+		case map[string]any:
+			k, _ := st.(string)
+			root = x[k]
+		case []any:
+			i, _ := st.(int)
+			if i >= len(x) {
+				return nil
+			}
+			root = x[i]
+		default:
+			return nil
+		}
+	}
+
+	return root
+}
+
+func deepCopy(v any) any {
+	switch x := v.(type) {
+	case map[string]any:
+		m := make(map[string]any, len(x))
+		for k, e := range x {
+			m[k] = deepCopy(e)
+		}
+		return m
+	case []any:
+		l := make([]any, len(x))
+		for i, e := range x {
+			l[i] = deepCopy(e)
+		}
+		return l
+	}
+
+	return v
+}
+
 // setAt replaces (or deletes, when del) the node at path; the root itself is never replaced by a non-object.
 func setAt(root any, path []any, nv any, del bool) any {
 	if len(path) == 0 {
@@ -129,7 +169,7 @@ func genJSON(rt *rapid.T, depth int, label string) any {
 
 func TestJSONDecodeTotal(t *testing.T) {
 	const check = "json_decode_total"
-	stats.Rule(check, "for a generated type shape (no expressibility filter: every registered target type counts) the JSON document of a valid value is parsed into a tree and 1..3 nodes are replaced by junk of another JSON type (null, numbers incl. out-of-range, non-hex / non-numeric strings, bools, arrays, objects with a bogus \"type\") or deleted; alternatively the document is drawn from a small JSON grammar whose keys collide with generated field keys; JSONDecode of the marshalled tree and MapDecode of the tree run with validation off and on. Oracle: returns (no panic); allocation <= 1 MiB + 2 KiB * len(document). Distinct by (shape, document); non-trivial = document is a mutated valid document")
+	stats.Rule(check, "for a generated type shape (no expressibility filter: every registered target type counts) the JSON document of a valid value is parsed into a tree and 1..3 nodes are replaced by junk of another JSON type (null, numbers incl. out-of-range, non-hex / non-numeric strings, bools, arrays, objects with a bogus \"type\") or deleted, a list grows by 1..300 copies of its own entries or junk (more entries than a fixed-size array holds or a maximum allows), or a subtree of the same document is grafted elsewhere; alternatively the document is drawn from a small JSON grammar whose keys collide with generated field keys; JSONDecode of the marshalled tree and MapDecode of the tree run with validation off and on. Oracle: returns (no panic); allocation <= 1 MiB + 2 KiB * len(document). Distinct by (shape, document); non-trivial = document is a mutated valid document")
 	rapid.Check(t, func(rt *rapid.T) {
 		c := serixgen.NewCase(rt, cfg())
 		v, _ := serixgen.GenValue(rt, c.Root, serixgen.ValidMode, cfg())
@@ -148,9 +188,40 @@ func TestJSONDecodeTotal(t *testing.T) {
 					break
 				}
 				p := ps[rapid.IntRange(1, len(ps)-1).Draw(rt, "path")]
-				if rapid.IntRange(0, 4).Draw(rt, "delete") == 0 {
+				switch rapid.IntRange(0, 7).Draw(rt, "mutation") {
+				case 0:
 					tree = setAt(tree, p, nil, true)
-				} else {
+				case 1, 2:
+					// a list grows: copies of one of its entries (or junk) are appended - more entries than a fixed-size
+					// array has room for, than a maximum allows, repeated map entries / set elements
+					var lists [][]any
+					for _, q := range ps {
+						if l, ok := getAt(tree, q).([]any); ok && len(q) > 0 {
+							_ = l
+							lists = append(lists, q)
+						}
+					}
+					if len(lists) == 0 {
+						tree = setAt(tree, p, rapid.SampledFrom(junkNodes).Draw(rt, "junk")(), false)
+						break
+					}
+					q := lists[rapid.IntRange(0, len(lists)-1).Draw(rt, "list")]
+					l, _ := getAt(tree, q).([]any)
+					extra := rapid.SampledFrom([]int{1, 1, 2, 5, 300}).Draw(rt, "extra")
+					nl := append([]any{}, l...)
+					for j := 0; j < extra; j++ {
+						if len(l) > 0 && rapid.IntRange(0, 3).Draw(rt, "copy") != 0 {
+							nl = append(nl, deepCopy(l[rapid.IntRange(0, len(l)-1).Draw(rt, "src")]))
+						} else {
+							nl = append(nl, rapid.SampledFrom(junkNodes).Draw(rt, "junk")())
+						}
+					}
+					tree = setAt(tree, q, nl, false)
+				case 3:
+					// a well-formed subtree of the same document in the wrong place
+					src := ps[rapid.IntRange(1, len(ps)-1).Draw(rt, "graft")]
+					tree = setAt(tree, p, deepCopy(getAt(tree, src)), false)
+				default:
 					tree = setAt(tree, p, rapid.SampledFrom(junkNodes).Draw(rt, "junk")(), false)
 				}
 			}
